@@ -201,9 +201,13 @@ package internal_planner
 // batch size.
 //@ fieldfunc github.com/metrico/qryn/reader/logql/logql_transpiler_v2/shared.PlannerContext.CancelCtx()
 //@   modifies nothing
-//@ func (*LimitPlanner).Process$2 [C12]
+// The count of forwarded entries accumulates over the batches (it is what the limit
+// is compared with): after a batch it is the previous count plus the batch, capped
+// at the limit - however the entries are split into batches.
+//@ func (*LimitPlanner).Process$2 [C09,C12]
 //@   requires sent >= 0 && (limit >= 0 ==> sent <= limit)
 //@   check never-more-than-limit: limit >= 0 ==> sent <= limit
+//@   check count-accumulates-over-batches: limit >= 0 ==> sent == (old(sent) + len(entries) < limit ? old(sent) + len(entries) : limit)
 
 // The `| json` stage without parameters: every scalar leaf of the (nested) object
 // becomes a label whose name is the path to that leaf joined with "_" - for string
